@@ -75,7 +75,16 @@ def steady_state_transport_solver(
 
     # Check cache for footprint mode
     if cache is not None and footprint:
-        cached = cache.get(z, profiles, domain, modes, meas_pt, halo, precision)
+        # everything besides the base key that determines the result
+        cache_extra = dict(
+            levels=levels,
+            shape=np.shape(srf_flx),
+            analytic=analytic,
+            srf_bg_conc=srf_bg_conc,
+        )
+        cached = cache.get(
+            z, profiles, domain, modes, meas_pt, halo, precision, **cache_extra
+        )
         if cached is not None:
             return cached
 
@@ -299,7 +308,9 @@ def steady_state_transport_solver(
 
     # Store to cache for footprint mode
     if cache is not None and footprint:
-        cache.put(z, profiles, domain, modes, meas_pt, halo, precision, *result)
+        cache.put(
+            z, profiles, domain, modes, meas_pt, halo, precision, *result, **cache_extra
+        )
 
     return result
 
